@@ -30,6 +30,13 @@ ASSUMPTIONS = [
     'lone CR line ends, non-ASCII, ragged or over-long rows are outside the grammar',
 ]
 
+
+def translate(ctx):
+    # the regex literals / type tables of yanny.py -> Generated/YannyLits.v (same generator as C01); the obligation
+    # Cxx_source_regexes_are_the_scanners in Props.v fails when the source uses another literal
+    from harness.props import c01 as _c01
+    return _c01.translate(ctx)
+
 HEADER = '''From Coq Require Import String.
 From Coq Require Import NArith ZArith List. Import ListNotations.
 From PV Require Import Yanny.Bytes Yanny.Types Yanny.Parse Yanny.Render C02.Model. Open Scope N_scope.'''
